@@ -40,3 +40,33 @@ Example C14_nonvacuous :
   out_toint (to_int U8 (mkdec 2550 1)) = OI 255 /\
   out_toint (to_int I64 (mkdec (- 2 ^ 63 * 1000) 3)) = OI (- 2 ^ 63).
 Proof. vm_compute. repeat split. Qed.
+
+(* ---- the conversions as translated from /repo's current source (gen/GenConv.v): TryFrom<Decimal> for the nine
+   integer types that go through i128 (src_try_from_decimal dispatches on the type tag), TryFrom<Decimal> for i128 itself
+   (equal to the model function the theorems above are about), TryFrom<u128> for Decimal ---- *)
+From FP Require Import GenDec GenConv GenTieConv.
+
+Theorem C14_source_try_from_decimal_accepted :
+  forall pf m t d, In t [U8; I8; U16; I16; U32; I32; U64; I64; U128] -> wf d = true ->
+    acc_un m (Utoint t) d 0 (src_out_toint (src_try_from_decimal t pf d)) = true.
+Proof. exact src_toint_acc. Qed.
+Check C14_source_try_from_decimal_accepted :
+  forall pf m t d, In t [U8; I8; U16; I16; U32; I32; U64; I64; U128] -> wf d = true ->
+    acc_un m (Utoint t) d 0 (src_out_toint (src_try_from_decimal t pf d)) = true.
+Print Assumptions C14_source_try_from_decimal_accepted.
+
+Theorem C14_source_try_from_decimal_i128 :
+  forall pf d, g_TryFrom_by_i128_try_from pf d = (r <- to_i128 d ;; Val (conv_res r)).
+Proof. exact tie_to_i128. Qed.
+Check C14_source_try_from_decimal_i128 :
+  forall pf d, g_TryFrom_by_i128_try_from pf d = (r <- to_i128 d ;; Val (conv_res r)).
+Print Assumptions C14_source_try_from_decimal_i128.
+
+Theorem C14_source_try_from_u128_accepted :
+  forall pf u, 0 <= u ->
+    acc_fromu128 u (of_res (fun s => match s with inl d => OV d | inr _ => OE E_OVERFLOW end) (g_TryFrom_u128_try_from pf u)) = true.
+Proof. exact src_fromu128_acc. Qed.
+Check C14_source_try_from_u128_accepted :
+  forall pf u, 0 <= u ->
+    acc_fromu128 u (of_res (fun s => match s with inl d => OV d | inr _ => OE E_OVERFLOW end) (g_TryFrom_u128_try_from pf u)) = true.
+Print Assumptions C14_source_try_from_u128_accepted.
